@@ -26,7 +26,7 @@ EXPLANATION = "direct exploration of the real state matrix and the real transien
 
 
 def budget_s(tier):
-    return 400 if tier == "quick" else 3600
+    return 600 if tier == "quick" else 3600
 
 
 LEVELS_QUICK = [(2, 2, "perm", ("real", "dec", "phys")), (2, 3, "perm", ("real", "dec", "phys")), (3, 3, "three", ("real", "dec", "phys")), (3, 4, "two", ("real", "phys"))]
